@@ -23,6 +23,7 @@ import (
 
 	"github.com/beevik/etree"
 	dsig "github.com/russellhaering/goxmldsig"
+	"github.com/russellhaering/goxmldsig/etreeutils"
 
 	"verif/harness/internal/verify"
 	"verif/harness/internal/world"
@@ -395,6 +396,35 @@ func signGox(raw []byte, path []string, kp *world.KeyPair, o SignOpts, decl bool
 		if el == nil {
 			panic("msg: goxmldsig sign path not found")
 		}
+	}
+	if parent != nil {
+		// sign the element as a stand-alone document with its inherited namespace declarations (what an SP
+		// does before embedding the signed message into the SOAP body), then put it back
+		nsctx, err := etreeutils.NSBuildParentContext(el)
+		if err != nil {
+			panic(err)
+		}
+		det, err := etreeutils.NSDetatch(nsctx, el)
+		if err != nil {
+			panic(err)
+		}
+		for i, c := range parent.Child {
+			if c == etree.Token(el) {
+				parent.Child[i] = det
+			}
+		}
+		parent.RemoveChild(el)
+		// RemoveChild may not find el any more (already replaced); make sure det is attached
+		found := false
+		for _, c := range parent.ChildElements() {
+			if c == det {
+				found = true
+			}
+		}
+		if !found {
+			parent.AddChild(det)
+		}
+		el = det
 	}
 	ctx := dsig.NewDefaultSigningContext(dsig.TLSCertKeyStore(tls.Certificate{Certificate: [][]byte{kp.DER}, PrivateKey: kp.RSA}))
 	ctx.Canonicalizer = dsig.MakeC14N10ExclusiveCanonicalizerWithPrefixList("")
